@@ -23,18 +23,20 @@ const vsymGroup = "g"
 var vsymTopics = []string{"t0", "t1"}
 
 type vsymWorld struct {
-	prop    string
-	c       *GroupCoordinator
-	store   *metadata.InMemoryStore
-	nparts  []int
-	ids     []string            // member ids ever issued, in issue order
-	subs    map[string][]string // subscription last sent by each member
-	commits int                 // CommitConsumerOffset calls observed by the monitor
-	lastGen int32
+	prop         string
+	c            *GroupCoordinator
+	store        *metadata.InMemoryStore
+	nparts       []int
+	ids          []string            // member ids ever issued, in issue order
+	subs         map[string][]string // subscription last sent by each member
+	commits      int                 // CommitConsumerOffset calls observed by the monitor
+	lastGen      int32
 	resubscribed map[string]bool
-	sessionMs int32 // session timeout sent with joins (default 10 s = the rebalance timeout)
-	fixedSubs bool // every join subscribes to {t0} (properties that do not depend on subscriptions)
-	timed   bool // step() may also let time pass and run the coordinator's cleanup tick
+	sessionMs    int32            // session timeout sent with joins (default 10 s = the rebalance timeout)
+	joinedAt     map[string]int32 // member id -> generation that was current right after its last JoinGroup call
+	takeovers    bool             // step() may also replace the coordinator by a fresh one over the same store
+	fixedSubs    bool             // every join subscribes to {t0} (properties that do not depend on subscriptions)
+	timed        bool             // step() may also let time pass and run the coordinator's cleanup tick
 }
 
 // Virtual time: under the executor time.Now is pinned (natively the microseconds that pass are
@@ -99,6 +101,22 @@ func vsymNewWorld(prop string, n0, n1 int) *vsymWorld {
 		groups: make(map[string]*groupState),
 	}
 	return w
+}
+
+// vsymTakeover replaces the world's coordinator by a new instance over the same metadata store
+// and has it load the group (what a broker does when it becomes the group's coordinator).
+func vsymTakeover(w *vsymWorld) {
+	nc := &GroupCoordinator{
+		store:  w.c.store,
+		broker: w.c.broker,
+		config: defaultCoordinatorConfig,
+		stopCh: make(chan struct{}),
+		groups: make(map[string]*groupState),
+	}
+	_, err := nc.loadGroupIfMissing(context.Background(), vsymGroup)
+	vsym_Assert(err == nil, w.prop+"/takeover-loads-the-group")
+	w.c = nc
+	vsym_Reach("takeover")
 }
 
 // vsymSubscription encodes a consumer-protocol subscription (reference encoder).
@@ -188,6 +206,13 @@ func (w *vsymWorld) join(memberID string, subs []string) *kmsg.JoinGroupResponse
 		w.ids = append(w.ids, resp.MemberID)
 	}
 	w.subs[resp.MemberID] = subs
+	// the harness's own record of who has joined which generation (not the coordinator's field)
+	if w.joinedAt == nil {
+		w.joinedAt = map[string]int32{}
+	}
+	if st := w.state(); st != nil {
+		w.joinedAt[resp.MemberID] = st.generationID
+	}
 	return resp
 }
 
@@ -276,7 +301,16 @@ func (w *vsymWorld) step() {
 	if w.timed {
 		nops = 7
 	}
+	if w.takeovers {
+		nops = 8
+	}
 	switch vsym_Choose("op", nops) {
+	case 7:
+		// the coordinator is replaced by a new one that loads the group from the metadata store
+		if w.state() == nil {
+			vsym_Assume(false)
+		}
+		vsymTakeover(w)
 	case 5:
 		if w.state() == nil {
 			vsym_Assume(false)
@@ -308,7 +342,22 @@ func (w *vsymWorld) step() {
 		if len(w.ids) == 0 {
 			vsym_Assume(false)
 		}
-		w.leave(w.ids[vsym_Choose("who", len(w.ids))])
+		id := w.ids[vsym_Choose("who", len(w.ids))]
+		others := 0
+		if st := w.state(); st != nil {
+			for m := range st.members {
+				if m != id {
+					others++
+				}
+			}
+		}
+		gen := w.lastGen
+		w.leave(id)
+		if others > 0 {
+			// the group exists as long as it has members: a leave must not make it (and its
+			// generation counter) disappear under the remaining ones
+			vsym_Assert(w.state() != nil && w.state().generationID >= gen, w.prop+"/group-with-members-survives-a-leave")
+		}
 	case 4:
 		if len(w.ids) == 0 || w.state() == nil {
 			vsym_Assume(false)
@@ -337,6 +386,7 @@ func (w *vsymWorld) checkJoin(resp *kmsg.JoinGroupResponse) {
 		vsym_Reach("join-none")
 		for _, id := range w.currentMembers() {
 			vsym_Assert(st.members[id].joinGeneration == resp.Generation, "C14/none-only-when-all-rejoined")
+			vsym_Assert(w.joinedAt[id] == resp.Generation, "C14/none-only-when-every-member-has-joined-this-generation")
 		}
 		vsym_Assert(resp.Generation == st.generationID, "C14/reply-generation-current")
 	}
